@@ -29,7 +29,7 @@ def main(argv=None):
   if args.part:
     os.environ['VERIF_PART'] = args.part
   if args.tier == 'thorough':
-    os.environ.setdefault('VERIF_TIMEOUT', '3300')      # (hang guard of the worker pools: thorough enumerations take longer)
+    os.environ.setdefault('VERIF_TIMEOUT', '5400')      # (hang guard of the worker pools: thorough enumerations take longer)
   return mod.run(args.tier)
 
 
